@@ -1,13 +1,18 @@
 import SuxModel.Base.Proto
 import SuxModel.Serde.Layout
+import SuxModel.Serde.Bridges
 /-!
 # Protocol runner `serde` (C15)
 
 `payload <schema> <hdrlen> <field>*` — the harness prints the field tuple of the real instance
 (`u<size>:<v>` scalar, `s<size>:[…]` vector of primitives, `r<c1>+<c2>…:[flattened rows]` vector of
-zero-copy structs); the model checks the tuple against the schema of the type, encodes it with the
-layout model and replies `ok <hex>`; the harness replies with the bytes ε-serde really wrote after
-its header.  Before replying the model re-loads its own bytes with all three loaders
+zero-copy structs).  `<schema>` is a `+`-joined list of layer names (wrapped structure first, as in
+the Rust `struct`s); every layer is a `Bridge` of `Serde/Bridges.lean`: the tuple is parsed into the
+MODEL state of each layer and laid out again with the bridge's `of` (`Bridge.reof`) — the result must
+be the tuple itself (`model-error bridge` otherwise), so the field order, the row shapes and the
+derived fields (`mask`, `log2_ones_per_sub16`, the two `…_mask`s) of `of` are the real ones.  Then the
+tuple is encoded with the layout model, reply `ok <hex>`; the harness replies with the bytes ε-serde
+really wrote after its header.  Before replying the model re-loads its own bytes with all three loaders
 (`decodeFull`, `loadView` at an aligned base) — an executable instance of `decode_encode` /
 `view_reads_same`; a failure would show as `model-error`.
 
@@ -19,33 +24,62 @@ differs from the model reply as well as from the harness's own oracle.
 namespace Sux.Serde
 open Sux.Proto
 
-def bvK : List Kind := [.seq [8], .scalar 8]
-def bfvK (w : Nat) : List Kind := [.seq [w], .scalar 8, .scalar w, .scalar 8]
+abbrev Reof := List Field → Option (List Field × List Field)
 
-/-- field kinds of the serializable types whose payload is compared (flattened, declaration order) -/
-def schemaOf : String → Option (List Kind)
-  | "bv" => some bvK                                   -- BitVec { bits, len }
-  | "bfv1" => some (bfvK 1)                            -- BitFieldVec<u8> { bits, bit_width, mask, len }
-  | "bfv2" => some (bfvK 2)
-  | "bfv4" => some (bfvK 4)
-  | "bfv8" => some (bfvK 8)
-  | "rank9" => some (bvK ++ [.seq [8, 8]])             -- Rank9 { bits: BitVec, counts: [BlockCounters] }
-  | "ranksmall1" => some (bvK ++ [.seq [8], .seq [4, 4], .scalar 8])
-  | "ranksmall2" => some (bvK ++ [.seq [8], .seq [4, 4, 4], .scalar 8])
-  | "ranksmall3" => some (bvK ++ [.seq [8], .seq [4, 4, 4, 4], .scalar 8])
-  | "ef" => some ([.scalar 8, .scalar 8, .scalar 8] ++ bfvK 8 ++ bvK)  -- EliasFano { n, u, l, low_bits, high_bits }
-  | "rcl" => some [.scalar 8, .scalar 8, .scalar 1, .seq [1], .seq [8]] -- RearCodedList { k, len, is_sorted, data, pointers }
+/-- the bridge of one layer (own fields of one Rust `struct`, the wrapped structure excluded) -/
+def layerOf : String → Option Reof
+  | "bv" => some bvB.reof                                  -- BitVec { bits, len }
+  | "bfv1" => some (bfvB 1).reof                           -- BitFieldVec<u8> { bits, bit_width, mask, len }
+  | "bfv2" => some (bfvB 2).reof
+  | "bfv4" => some (bfvB 4).reof
+  | "bfv8" => some (bfvB 8).reof
+  | "r9c" => some r9cB.reof                                -- Rank9 { bits, counts }
+  | "rsm1" => some (rsmIdxB ⟨1, 9⟩).reof                   -- RankSmall { bits, upper_counts, counts, num_ones }
+  | "rsm2" => some (rsmIdxB ⟨2, 9⟩).reof                   --   (the layout depends on NUM_U32S only)
+  | "rsm3" => some (rsmIdxB ⟨3, 13⟩).reof
+  | "sa" => some (adaptRunB false).reof                    -- SelectAdapt { bits, inventory, spill, 5 × usize }
+  | "sza" => some (adaptRunB true).reof                    -- SelectZeroAdapt
+  | "sac" => some adaptConstB.reof                         -- Select[Zero]AdaptConst { bits, inventory, spill }
+  | "s9" => some s9B.reof                                  -- Select9 { rank9, inventory, subinventory, 2 × usize }
+  | "ss" => some smallSelB.reof                            -- Select[Zero]Small { small_counters, inventory, inventory_begin, l }
+  | "efh" => some (((Bridge.scalar 8).pair (Bridge.scalar 8)).pair (Bridge.scalar 8)).reof  -- EliasFano { n, u, l, … }
+  | "rcl" => some rclB.reof                                -- RearCodedList { k, len, is_sorted, data, pointers }
+  | "fuse3s" => some (seShardsB .shards 2).reof            -- FuseLge3Shards { shard_bits_shift, log2_seg_size, l }
+  | "fuse3f" => some (seShardsB .fullsigs 2).reof          -- FuseLge3FullSigs(FuseLge3Shards)
+  | "fuse3n" => some (seNoShardsB 2).reof                  -- FuseLge3NoShards { log2_seg_size, l }
+  | "vfh" => some ((Bridge.scalar 8).pair (Bridge.scalar 8)).reof  -- VFunc { shard_edge, seed, num_keys, data }
+  | "u1" => some (Bridge.scalar 1).reof                    -- structures without a model: plain fields
+  | "u2" => some (Bridge.scalar 2).reof
+  | "u4" => some (Bridge.scalar 4).reof
+  | "u8" => some (Bridge.scalar 8).reof
+  | "s1" => some (sliceB 1).reof
+  | "s2" => some (sliceB 2).reof
+  | "s4" => some (sliceB 4).reof
+  | "s8" => some (sliceB 8).reof
   | _ => none
 
-/-- invariants between fields that the constructors of the type maintain -/
-def structInv (schema : String) (fs : List Field) : Bool :=
-  match schema, fs with
-  | "bfv1", [_, .scalar _ bw, .scalar _ m, _] => bw ≤ 8 && m == 2 ^ bw - 1
-  | "bfv2", [_, .scalar _ bw, .scalar _ m, _] => bw ≤ 16 && m == 2 ^ bw - 1
-  | "bfv4", [_, .scalar _ bw, .scalar _ m, _] => bw ≤ 32 && m == 2 ^ bw - 1
-  | "bfv8", [_, .scalar _ bw, .scalar _ m, _] => bw ≤ 64 && m == 2 ^ bw - 1
-  | "rcl", [_, _, .scalar _ b, _, _] => b ≤ 1
-  | _, _ => true
+/-- the layers of a type: `+`-joined names; the names of the first version of the runner are kept -/
+def layersOf (schema : String) : Option (List Reof) :=
+  let names := match schema with
+    | "rank9" => ["bv", "r9c"]
+    | "ranksmall1" => ["bv", "rsm1"]
+    | "ranksmall2" => ["bv", "rsm2"]
+    | "ranksmall3" => ["bv", "rsm3"]
+    | "ef" => ["efh", "bfv8", "bv"]
+    | s => s.splitOn "+"
+  names.mapM layerOf
+
+/-- parse the tuple layer by layer and lay every layer out again -/
+def reofAll : List Reof → List Field → Option (List Field)
+  | [], [] => some []
+  | [], _ :: _ => none
+  | l :: ls, fs =>
+    match l fs with
+    | none => none
+    | some (own, rest) =>
+      match reofAll ls rest with
+      | none => none
+      | some more => some (own ++ more)
 
 def chunk (k : Nat) (xs : List Nat) : Nat → List (List Nat)
   | 0 => []
@@ -77,17 +111,22 @@ def hexOf (bs : List Nat) : String :=
   if bs.isEmpty then "-" else String.ofList (bs.flatMap fun b => [hexDigit (b / 16), hexDigit (b % 16)])
 
 def doPayload (schema : String) (hdrLen : Nat) (fs : List Field) : String :=
-  match schemaOf schema with
+  match layersOf schema with
   | none => "bad-op"
-  | some kinds =>
-    if fs.map Field.kind ≠ kinds || !fs.all Field.wfb || !structInv schema fs then "bad-op"
-    else
-      let bytes := payload hdrLen fs
-      -- self-check with an all-zero header of the same length
-      let file := List.replicate hdrLen 0 ++ bytes
-      if decodeFull hdrLen kinds file ≠ some fs then "model-error full"
-      else if loadView 0 hdrLen kinds file ≠ some fs then "model-error view"
-      else s!"ok {hexOf bytes}"
+  | some layers =>
+    match reofAll layers fs with
+    | none => "bad-op"                     -- the tuple is not of this type
+    | some fs' =>
+      if fs' ≠ fs then "model-error bridge"
+      else if !fs.all Field.wfb then "bad-op"
+      else
+        let kinds := fs.map Field.kind
+        let bytes := payload hdrLen fs
+        -- self-check with an all-zero header of the same length
+        let file := List.replicate hdrLen 0 ++ bytes
+        if decodeFull hdrLen kinds file ≠ some fs then "model-error full"
+        else if loadView 0 hdrLen kinds file ≠ some fs then "model-error view"
+        else s!"ok {hexOf bytes}"
 
 def step (_ : Unit) (toks : List String) : Unit × String :=
   let bad := ((), "bad-op")
